@@ -681,3 +681,136 @@ def final_fields_str(tok):
         k, _, v = t.partition(':')
         d[k] = v
     return d
+
+
+# ----------------------------------------------------------------------------- C19
+
+def _merge_ok(final, pre, seqs):
+    """final == pre ++ (some interleaving of the sequences in seqs)"""
+    if final[:len(pre)] != pre:
+        return False
+    rest = final[len(pre):]
+    if len(rest) != sum(len(x) for x in seqs):
+        return False
+    # greedy does not work for equal heads; sequences here carry disjoint alphabets per thread, so greedy is exact
+    idx = [0] * len(seqs)
+    for b in rest:
+        for j, sq in enumerate(seqs):
+            if idx[j] < len(sq) and sq[idx[j]] == b:
+                idx[j] += 1
+                break
+        else:
+            return False
+    return True
+
+
+def _rc_ok(op, res):
+    name = op.split(':')[0]
+    if res == 'p':
+        return 'call %s panicked' % op
+    if name in ('init', 'step', 'loop', 'mm', 'md', 'mu', 'qa', 'qb', 'nvset'):
+        return None if res == '0' else '%s returned %s (expected 0)' % (op, res)
+    if name in ('pc', 'reg', 'oport'):
+        return None if res.startswith('0:') else '%s returned %s' % (op, res)
+    if name in ('rdw', 'rdb'):
+        sentinel = 'deadbeef' if name == 'rdw' else 'a5'
+        if res.startswith('0:') or res == '1:' + sentinel:
+            return None
+        return '%s returned %s (0:<value> or 1 with the output untouched)' % (op, res)
+    if name in ('pa', 'pb'):
+        if res == '2:a5' or (res.startswith('0:') and len(res) <= 4):
+            return None
+        return 'transmit poll returned %s (0:<byte> or 2 with the output untouched)' % res
+    if name == 'dirty':
+        return None if res in ('0', '1') else 'dirty returned ' + res
+    if name == 'vram':
+        return None if res.startswith('f') else 'video_ram returned ' + res
+    if name == 'nvget':
+        return None if res.startswith('0:') else 'nvget returned ' + res
+    return None
+
+
+def mon_capi(case, obs):
+    toks = case.split()[1:]
+    if toks[0] == 'C':
+        ops = toks[1:]
+        out = obs.split()
+        last_snap = None
+        last_nvset = None
+        for i, op in enumerate(ops):
+            if i >= len(out):
+                break
+            res = out[i]
+            name = op.split(':')[0]
+            if name in ('t',):
+                continue
+            if name == 'snap':
+                last_snap = parse_snap(res) if res.startswith('D:') else None
+                continue
+            e = _rc_ok(op, res)
+            if e:
+                return 'op %d: %s' % (i, e)
+            if name in ('pa', 'pb') and last_snap is not None:
+                q = last_snap['ports'][0 if name == 'pa' else 1]['txq']
+                if (res == '2:a5') != (len(q) == 0):
+                    return 'op %d: %s returned %s but %d bytes were pending' % (i, op, res, len(q))
+                if q and res != '0:%x' % q[0]:
+                    return 'op %d: %s returned %s, the oldest pending byte is %x' % (i, op, res, q[0])
+            if name == 'nvset':
+                last_nvset = digest_pairs(list(enumerate(lcg_bytes(int(op.split(':')[1], 16), 8192))))
+            elif name == 'nvget':
+                if last_nvset is not None and i > 0 and ops[i - 1].startswith('nvset') and res != '0:' + last_nvset:
+                    return 'op %d: NVRAM image read back (%s) is not the image just stored (%s)' % (i, res, last_nvset)
+            if name != 'snap':
+                last_snap = None if name not in ('pa', 'pb') else None
+        return None
+    if toks[0] == 'T':
+        spec = toks[3].split('/')
+        parts = obs.split(' / ')
+        if len(parts) != len(spec) + 2:
+            return 'a thread did not finish (deadlock or crash): %s' % obs[:120]
+        if not parts[0].startswith('D:') or not parts[-1].startswith('D:'):
+            return 'the machine was left poisoned: %s ... %s' % (parts[0][:20], parts[-1][:20])
+        pre, post = parse_snap(parts[0]), parse_snap(parts[-1])
+        thr_ops = [s.split(',') if s else [] for s in spec]
+        thr_out = [p.split(',') if p else [] for p in parts[1:-1]]
+        polled = {0: [], 1: []}
+        enq = {0: [[] for _ in spec], 1: [[] for _ in spec]}
+        for ti, (ops, outs) in enumerate(zip(thr_ops, thr_out)):
+            if outs == ['p']:
+                return 'thread %d panicked' % ti
+            if len(ops) != len(outs):
+                return 'thread %d: %d calls, %d results' % (ti, len(ops), len(outs))
+            for op, res in zip(ops, outs):
+                name = op.split(':')[0]
+                if name == 't':
+                    continue
+                e = _rc_ok(op, res)
+                if e:
+                    return 'thread %d: %s' % (ti, e)
+                if name in ('qa', 'qb'):
+                    enq[0 if name == 'qa' else 1][ti].append(int(op.split(':')[1], 16))
+                if name in ('pa', 'pb') and res.startswith('0:'):
+                    polled[0 if name == 'pa' else 1].append((ti, int(res[2:], 16)))
+        stepped = any(o.split(':')[0] in ('step', 'loop') for o in thr_ops[0])
+        boot = sum(1 for o in thr_ops[0] if o.startswith('loop')) > 1000
+        for ch in (0, 1):
+            name = 'AB'[ch]
+            pq = post['ports'][ch]
+            if not boot:
+                # nothing consumes the receive queue while the firmware is still in its first instructions:
+                # every injected byte must be there, once, in per-thread order
+                if not _merge_ok(pq['rxq'], pre['ports'][ch]['rxq'], enq[ch]):
+                    return 'channel %s receive queue %s is not the old queue %s followed by an interleaving of the threads\' injections %s' % (
+                        name, pq['rxq'], pre['ports'][ch]['rxq'], enq[ch])
+                # polled bytes come off the front of the old transmit queue, each handed to exactly one poller
+                got = [b for (_, b) in polled[ch]]
+                old = pre['ports'][ch]['txq']
+                if sorted(got + pq['txq']) != sorted(old):
+                    return 'channel %s: polled %s + still pending %s is not what was pending before %s' % (name, got, pq['txq'], old)
+        if boot:
+            got = [b for (_, b) in polled[1]] + post['ports'][1]['txq']
+            if sorted(got) != sorted(pre['ports'][1]['txq'] + [0x02, 0x12]) and sorted(got) != sorted(pre['ports'][1]['txq']):
+                return 'keyboard bytes handed to the pollers %s (+ pending %s): the firmware sends 02 12 exactly once' % (polled[1], post['ports'][1]['txq'])
+        return None
+    return None
